@@ -26,6 +26,11 @@ C03 — line-protocol driver of the replace-protocol model (core only).
         → skipped | refused | groups <i,i,…>@<level>;…
         what one measurement contributes to a full-compaction plan (low-level mode when to > 0)
 
+  meta w=<stream|builder|merge|any> limit=<n> chunks=<sid>:<minT>:<maxT>,…
+        → blocks <id>:<minT>:<maxT>:<count>;… trailer <minId>:<maxId>:<minT>:<maxT>:<idCount>
+        the meta index and the trailer the writer `w` builds for these chunks with `n` chunk
+        metas per block (the writers' update rules, as regenerated)
+
 Entries are `o/<name>` (measurement directory) or `u/<name>` (out-of-order sub-directory);
 a name ending in the regenerated `.init` suffix is a temporary entry.  `files=` of a reorg line
 lists the data files before the reorganisation in the order the shard keeps them (ascending
@@ -34,6 +39,7 @@ sequence): ordered files first, then out-of-order files.
 import OG.C03.Multi
 import OG.C03.Plan
 import OG.C03.FullPlan
+import OG.C03.MetaNow
 
 namespace OG.C03
 
@@ -166,6 +172,26 @@ def step (line : String) : String :=
           | .refused => "refused"
           | .groups gs => "groups " ++ String.intercalate ";" (gs.map fun (g, l) =>
               String.intercalate "," (g.map fun f => toString (idxOf f)) ++ "@" ++ toString l)
+      | none => "bad-op"
+    | _, _, _ => "bad-op"
+  | "meta" :: rest =>
+    match kvOf rest "w", (kvOf rest "limit").bind (·.toNat?), kvOf rest "chunks" with
+    | some w, some limit, some chunks =>
+      let parsed := (splitList chunks).map fun t =>
+        match t.splitOn ":" with
+        | [a, b, c] => match a.toNat?, b.toInt?, c.toInt? with
+          | some sid, some mn, some mx => some (⟨sid, mn, mx⟩ : MChunk)
+          | _, _, _ => none
+        | _ => none
+      match parsed.mapM id with
+      | some cs =>
+        if limit == 0 || cs.isEmpty then "bad-op"
+        else
+          let (bs, tr) := writeMeta (updNow w) limit cs
+          "blocks " ++ String.intercalate ";" (bs.map fun b => s!"{b.id}:{b.minT}:{b.maxT}:{b.count}")
+            ++ (match tr with
+                | some t => s!" trailer {t.minId}:{t.maxId}:{t.minT}:{t.maxT}:{t.idCount}"
+                | none => " trailer none")
       | none => "bad-op"
     | _, _, _ => "bad-op"
   | "mcrash" :: rest =>
